@@ -185,7 +185,15 @@ class CHECK(Check):
             "(partial_fit's documented requirement); 'tie' variant: zero-initialised user modules with learning rate 0 so "
             "outputs are exactly 0.5 / all equal. life: call histories of 1-5 calls (fit cold / warm_start, partial_fit with or "
             "without classes=, predict) on one estimator with the recording engine, n in 2..12. "
-            "distinct = distinct case; non-trivial = at least 2 steps / 2 calls or a real-engine case")
+            "distinct = distinct case; non-trivial = at least 2 steps / 2 calls or a real-engine case. "
+            "Not stated before (review R2): sched — X has the row number in column 0 and the constant 0.5 in column 1, y / sensitive "
+            "feature are row number + 0.5 / + 0.25 (classifier: labels alternate), stop steps are drawn from 1..planned+1; "
+            "real — n is cut so that a last partial slice has at least as many rows as there are classes, the sensitive feature "
+            "is never continuous, at most ONE callback (stopping at one step in 1..planned+1), alpha in {0, 1/2, 1}, learning "
+            "rate in {1/4, 1/16, 1/100} (regression 1/64, 1/100), 1-6 extra prediction rows with features k/4, |k| <= 12, "
+            "ndarray / pandas containers only; parameters that are NaN in BOTH fit and twin count as equal (tagged "
+            "nan_parameters); regression predict is compared with the raw output bit for bit; life — partial_fit windows have "
+            "at least 2 rows, fit calls carry no callbacks, default (list) models of the recording engine")
     explanation = ("theorems over the Lean model Schedule; correspondence: recorded slices and callback calls vs `sched.run` "
                    "and `sched.loop` of the compiled driver (exact), fit vs partial_fit twin weights (bit-equal), predict vs "
                    "`sched.predbin/predmulti` on exactly converted raw outputs; the same observations vs the interpreter of the "
@@ -759,7 +767,10 @@ class CHECK(Check):
             return probs   # non-finite outputs: decision rule not judged (tagged)
         if case["ykind"] == "continuous":
             flat = [float(F(r[0])) for r in raw]
-            if o["pred_ndim"] != 1 or len(pred) != len(flat) or any(abs(a - b) > 1e-6 * (1 + abs(b)) for a, b in zip(pred, flat)):
+            # review R2: measured max |predict - raw| on the unchanged tree = 0.0 exactly (3326 values, VERIF_SEED 0..2): the rule
+            # is the identity on the same float32 forward pass, so the comparison is bit-exact like the twin comparison
+            # (was 1e-6 relative)
+            if o["pred_ndim"] != 1 or len(pred) != len(flat) or any(abs(a - b) > 0.0 for a, b in zip(pred, flat)):
                 probs.append(Problem("property", f"regression predict {str(pred)[:80]} is not the raw output {str(flat)[:80]}", "C17.predict_regression"))
             return probs
         k = len(set(case["y"]))
